@@ -297,13 +297,13 @@ class BytesInstruction(MichelsonInstruction, prim='BYTES'):
         a = cast(Union[NatType, IntType], stack.pop1())
         a.assert_type_in(NatType, IntType)
         int_val = int(a)
-        signed = isinstance(a, IntType)
+        signed = not isinstance(a, NatType)  # NOTE: NatType is a subclass of IntType
         if signed:
             length = (8 + (int_val + (int_val < 0)).bit_length()) // 8
         else:
             length = (7 + int_val.bit_length()) // 8
-        # NOTE: the shortest big-endian encoding of natural number or integer n
-        byte_val = int_val.to_bytes(length, 'big', signed=signed).lstrip(b'\x00')
+        # NOTE: the shortest big-endian encoding of natural number or integer n (two's complement keeps its sign byte)
+        byte_val = int_val.to_bytes(length, 'big', signed=signed) if int_val != 0 else b''
         res = BytesType.from_value(byte_val)
         stack.push(res)
         stdout.append(f'{cls.prim} / {repr(a)} => {repr(res)}')
